@@ -50,6 +50,9 @@ def render_engine():
         p = os.path.join(ENGINE, d, "Cargo.toml.in")
         if os.path.exists(p):
             render(p, os.path.join(ENGINE, d, "Cargo.toml"))
+    p = os.path.join(ENGINE, "frontend", "src", "lib.rs.in")
+    if os.path.exists(p):
+        render(p, os.path.join(ENGINE, "frontend", "src", "lib.rs"))
 
 
 def build_engine_bin(pkg):
@@ -527,6 +530,183 @@ def libprops(prop, tier, seed):
     return finish(prop, tier, seed, cfg["level"], cov, cfg["assumptions"], time.time() - t0, viol, [])
 
 
+def cargo_check_json(crate_dir, target_dir):
+    """cargo check --message-format=json; returns (list of error diagnostics as (line, message), raw tail)."""
+    render(os.path.join(crate_dir, "Cargo.toml.in"), os.path.join(crate_dir, "Cargo.toml"))
+    lock = os.path.join(crate_dir, "Cargo.lock")
+    if not os.path.exists(lock):
+        shutil.copy(os.path.join(ENGINE, "Cargo.lock"), lock)
+    e = env()
+    e["CARGO_TARGET_DIR"] = target_dir
+    p = subprocess.run(["cargo", "check", "-q", "--message-format=json"], cwd=crate_dir, env=e,
+                       stdout=subprocess.PIPE, stderr=subprocess.PIPE, text=True)
+    errs = []
+    for line in p.stdout.splitlines():
+        try:
+            m = json.loads(line)
+        except ValueError:
+            continue
+        if m.get("reason") != "compiler-message":
+            continue
+        msg = m["message"]
+        if msg.get("level") != "error":
+            continue
+        def lines_of(spans):
+            out = []
+            for sp in spans:
+                if sp.get("file_name", "").endswith("src/lib.rs"):
+                    out.append(sp["line_start"])
+                exp = sp.get("expansion")
+                while exp:
+                    sp2 = exp.get("span", {})
+                    if sp2.get("file_name", "").endswith("src/lib.rs"):
+                        out.append(sp2["line_start"])
+                    exp = sp2.get("expansion")
+            return out
+        ls = lines_of(msg.get("spans", []))
+        for ch in msg.get("children", []):
+            ls += lines_of(ch.get("spans", []))
+        errs.append((ls, msg.get("message", ""), (msg.get("rendered") or "")[:600]))
+    return errs, p.returncode, p.stderr[-2000:]
+
+
+def c15(tier, seed):
+    prop = "C15"
+    t0 = time.time()
+    out = os.path.join(WORK, prop)
+    os.makedirs(out, exist_ok=True)
+    vgen = build_engine_bin("vgen")
+    render_engine()
+    sh([vgen, "--prop", prop, "--tier", tier, "--seed", str(seed), "--out", out, "--engine", ENGINE])
+    # in-process front end (own workspace: resolver 1)
+    fe_dir = os.path.join(ENGINE, "frontend")
+    if not os.path.exists(os.path.join(fe_dir, "Cargo.lock")):
+        shutil.copy(os.path.join(ENGINE, "Cargo.lock"), os.path.join(fe_dir, "Cargo.lock"))
+    fe_target = os.path.join(WORK, "target-fe")
+    sh(["cargo", "build", "-q"], cwd=fe_dir, extra_env={"CARGO_TARGET_DIR": fe_target})
+    res_path = os.path.join(out, "inproc.json")
+    pr = sh([os.path.join(fe_target, "debug", "vfrontend"), os.path.join(out, "cases.json"), res_path], check=False)
+    if pr.returncode != 0:
+        sys.stderr.write(pr.stdout[-2000:])
+        raise Inconclusive("in-process front end run failed (%d): possible non-termination" % pr.returncode)
+    cases = {c["id"]: c for c in json.load(open(os.path.join(out, "cases.json")))}
+    results = json.load(open(res_path))
+    violations = []
+    dist = {}
+    stages = {}
+    triples = set()
+    evaluations = 0
+    samples = []
+    for r in results:
+        c = cases[r["id"]]
+        o = r["outcome"]
+        kind = o if isinstance(o, str) else list(o.keys())[0]
+        detail = "" if isinstance(o, str) else list(o.values())[0]
+        evaluations += 1
+        dist["operator:" + c["operator"]] = dist.get("operator:" + c["operator"], 0) + 1
+        dist["inproc_outcome:" + kind] = dist.get("inproc_outcome:" + kind, 0) + 1
+        bad = None
+        if kind == "Panicked":
+            bad = "the macro front end panicked: %s" % detail
+        elif kind == "LexError":
+            raise Inconclusive("generated text does not lex: %s" % c["text"][:300])
+        elif c["expect"] == "reject" and kind != "Rejected":
+            bad = "ill-formed program (%s at %s) accepted by the front end" % (c["operator"], c["site"])
+        elif c["expect"] == "accept_wellformed" and kind != "Accepted":
+            bad = "well-formed generated program rejected by the macro: %s" % detail
+        if kind == "Rejected":
+            stage = ("stratification" if "stratified" in detail else "arity" if "arity" in detail else "undefined relation" if "not defined" in detail
+                     else "shadowing" if "shadows" in detail else "recursive macro" if "recursively" in detail else "attribute" if "ttribute" in detail or "`ds`" in detail or "lattice" in detail
+                     else "include_source" if "include_source" in detail else "other")
+            stages[stage] = stages.get(stage, 0) + 1
+        if c["expect"] != "accept_wellformed":
+            site_class = c["site"].split(":")[-1] if ":" in c["site"] else c["site"].rstrip("0123456789")
+            first = c["site"].startswith("rule0")
+            if not first:
+                triples.add((c["operator"], site_class, c["kind"]))
+            if len(samples) < 3 and c["operator"] in ("unstratifiable_via_second_rule", "wrong_arity", "rebind_agg") and not first:
+                samples.append(dict(operator=c["operator"], site=c["site"], macro=c["kind"], program=c["text"], front_end=o))
+        if bad:
+            violations.append(dict(property=prop, base=r["id"], signature="C15:inproc:%s:%s" % (c["operator"], kind),
+                                   failures=[dict(kind=kind, detail=detail, what=bad)], program_text="%s! {\n%s\n}" % (c["kind"], c["text"]),
+                                   input_text="", seed=seed, tier=tier))
+    # rustc tier
+    rustc_target = os.path.join(WORK, "target-c15")
+    ill_errs, rc, tail = cargo_check_json(os.path.join(out, "ill"), rustc_target)
+    mods = json.load(open(os.path.join(out, "ill_modules.json")))
+    if rc == 0:
+        violations.append(dict(property=prop, base="rustc-tier", signature="C15:rustc:crate of ill-formed programs compiles",
+                               failures=[dict(what="cargo check succeeded on %d ill-formed programs" % len(mods))], program_text="", input_text="", seed=seed, tier=tier))
+    for m in mods:
+        hits = [e for e in ill_errs if any(m["from"] <= l <= m["to"] for l in e[0])]
+        evaluations += 1
+        dist["rustc_tier_modules"] = dist.get("rustc_tier_modules", 0) + 1
+        if any("proc macro panicked" in e[1] or "proc macro panicked" in e[2] for e in hits):
+            violations.append(dict(property=prop, base=m["module"], signature="C15:rustc:proc macro panicked:%s" % m["operator"],
+                                   failures=[dict(what="proc macro panicked", diagnostics=[e[2] for e in hits][:2])], program_text=cases[m["module"]]["text"], input_text="", seed=seed, tier=tier))
+        elif not hits and rc != 0:
+            violations.append(dict(property=prop, base=m["module"], signature="C15:rustc:no diagnostic:%s" % m["operator"],
+                                   failures=[dict(what="no error diagnostic inside the line range of this ill-formed program (%s at %s, %s!)" % (m["operator"], m["site"], m["kind"]))],
+                                   program_text=cases[m["module"]]["text"], input_text="", seed=seed, tier=tier))
+    if any("proc macro panicked" in e[1] for e in ill_errs):
+        dist["proc_macro_panics"] = sum(1 for e in ill_errs if "proc macro panicked" in e[1])
+    # converse direction: known compile-time rejections of well-formed programs, and controls
+    wf_errs, wf_rc, _ = cargo_check_json(os.path.join(out, "wf"), rustc_target)
+    wf_mods = json.load(open(os.path.join(out, "wf_modules.json")))
+    known = {k["id"]: k for k in load_known() if k.get("property") == prop and k.get("status") == "known"}
+    known_by_mod = {"kf2": "KF-2", "kf4": "KF-4", "kf9": "KF-9", "kf20": "KF-20"}
+    lines = []
+    status = {}
+    for m in wf_mods:
+        hits = [e for e in wf_errs if any(m["from"] <= l <= m["to"] for l in e[0])]
+        evaluations += 1
+        kid = known_by_mod.get(m["module"])
+        if kid:
+            if hits and kid in known:
+                lines.append("KNOWN-FINDING: property=%s %s: %s" % (prop, kid, known[kid]["what"]))
+                status[kid] = "still rejected by rustc: " + hits[0][1][:120]
+            elif hits:
+                violations.append(dict(property=prop, base=m["module"], signature="C15:wf:%s rejected but not listed as known" % kid,
+                                       failures=[dict(what=hits[0][2])], program_text="", input_text="", seed=seed, tier=tier))
+            else:
+                status[kid] = "compiles on this tree"
+        elif hits:
+            violations.append(dict(property=prop, base=m["module"], signature="C15:wf:control rejected",
+                                   failures=[dict(what="well-formed control program does not compile", diagnostic=hits[0][2])], program_text="", input_text="", seed=seed, tier=tier))
+    cov = dict(evaluations=evaluations, distinct_nontrivial=len(triples),
+               rule=("Well-formed generated base program (positive / lattice / stratified / sugared) + exactly one violation operator at a random site, "
+                     "printed under one of the four macros (ascent_source for the include_source case): undeclared relation and wrong arity "
+                     "(+1 / -1 argument) at a head / body / aggregate / negation clause; negation or aggregation of the rule's own head "
+                     "relation, directly or through a second rule that closes the cycle; rebinding a clause-bound variable by let / if let / "
+                     "for / an aggregate pattern; self- and mutually recursive macro; #[ds] on a lattice; two #[ds] attributes; unknown program "
+                     "attribute; inter_rule_parallelism on a serial macro; unknown relation attribute; include_source! inside ascent_source!. "
+                     "Oracle, in-process (the repository's own pipeline files compiled as a library, with a 60 s non-termination watchdog): "
+                     "Err, never Ok, never a panic; every well-formed base is accepted (converse). Oracle, rustc tier: a crate holding a seeded "
+                     "sample of the ill-formed programs (>= 2 per operator) and every case the front end accepts (unknown relation attribute): "
+                     ">= 1 error diagnostic inside each program's line range, none of them 'proc macro panicked'; a second crate holds the "
+                     "open compile-time findings about well-formed programs (KF-2, KF-4, KF-9, KF-20) and two controls that must compile. "
+                     "distinct_nontrivial = distinct (operator, site class, macro kind) triples whose site is not in the first rule."),
+               samples=samples, distribution=dist, rejection_stage=stages, rustc_tier_modules=len(mods),
+               wellformed_compile_findings=status)
+    write_evidence(prop, tier, seed, "exploration", cov,
+                   ["rustc diagnostics are attributed to programs by line range", "arbitrary token soup is outside the property's quantifier and is not generated"],
+                   time.time() - t0, len(violations))
+    for l in lines:
+        print(l)
+    if violations:
+        os.makedirs(REPLAYS, exist_ok=True)
+        for v in violations[:20]:
+            name = "%s-seed%s-%s.json" % (prop, seed, hashlib.sha1(json.dumps(v, sort_keys=True, default=str).encode()).hexdigest()[:10])
+            path = os.path.join(REPLAYS, name)
+            with open(path, "w") as f:
+                json.dump(v, f, indent=1, default=str)
+            print("VIOLATION property=%s replay=%s" % (prop, path))
+            sys.stderr.write("--- %s\n%s\n%s\n" % (v["signature"], v.get("program_text", "")[:1500], json.dumps(v["failures"])[:800]))
+        return 1
+    print("OK property=%s tier=%s seed=%s evaluations=%d nontrivial=%d wall=%.1fs" % (prop, tier, seed, evaluations, len(triples), time.time() - t0))
+    return 0
+
+
 def main(argv):
     if not argv:
         print(__doc__)
@@ -561,6 +741,12 @@ def main(argv):
             cov, violations, infra = merge_progfuzz(prop, tier, seed, run)
             cfg = run["cfg"]
             return finish(prop, tier, seed, cfg["level"], cov, cfg["assumptions"], time.time() - t0, violations, infra)
+        if prop == "C15":
+            if replay:
+                rd = json.load(open(replay))
+                seed = rd.get("seed", seed)
+                tier = rd.get("tier", tier)
+            return c15(tier, seed)
         if prop in LIBPROPS:
             if replay:
                 rd = json.load(open(replay))
